@@ -1450,6 +1450,7 @@ type createParams struct {
 	comp    bool
 	ver     string // "" = flags (current version), else through a definition file
 	insec   bool
+	spec    string // full "custom:..." network specification when net holds only its name
 }
 
 func (p createParams) line() string {
@@ -1457,7 +1458,11 @@ func (p createParams) line() string {
 	for _, a := range p.amounts {
 		am = append(am, strconv.Itoa(a))
 	}
-	return fmt.Sprintf("create n=%d t=%d v=%d net=%s amounts=%s comp=%v ver=%s insecure=%v", p.n, p.t, p.v, p.net, strings.Join(am, "+"), p.comp, p.ver, p.insec)
+	net := p.net
+	if p.spec != "" {
+		net = p.spec
+	}
+	return fmt.Sprintf("create n=%d t=%d v=%d net=%s amounts=%s comp=%v ver=%s insecure=%v", p.n, p.t, p.v, net, strings.Join(am, "+"), p.comp, p.ver, p.insec)
 }
 
 func parseCreate(line string) (createParams, bool) {
@@ -1516,10 +1521,24 @@ func (d *drv) opCreate(p createParams) {
 	if p.insec {
 		args = append(args, "--insecure-keys")
 	}
+	// a custom test network is given by the --testnet-* flags only; --network keeps its CLI default
+	custom := strings.HasPrefix(p.net, "custom:")
+	if custom {
+		cf := strings.Split(p.net, ":")
+		if len(cf) != 5 || p.ver != "" {
+			panic("bad custom network " + p.net)
+		}
+		args = append(args, "--testnet-name", cf[1], "--testnet-fork-version", cf[2], "--testnet-chain-id", cf[3], "--testnet-genesis-timestamp", cf[4])
+		p.spec = p.net
+		p.net = cf[1] // the name everything below is checked against
+	}
 	if p.ver == "" {
 		args = append(args, "--name", "created", "--nodes", strconv.Itoa(p.n), "--threshold", strconv.Itoa(p.t),
-			"--num-validators", strconv.Itoa(p.v), "--network", p.net,
+			"--num-validators", strconv.Itoa(p.v),
 			"--fee-recipient-addresses", strings.Join(feeAddrs, ","), "--withdrawal-addresses", strings.Join(wAddrs, ","))
+		if !custom {
+			args = append(args, "--network", p.net)
+		}
 		if len(p.amounts) > 0 {
 			var am []string
 			for _, a := range p.amounts {
@@ -1886,6 +1905,7 @@ func (d *drv) episode(i int) {
 func (d *drv) creates(k int) {
 	quick := []createParams{
 		{n: 3, t: 2, v: 1, net: "hoodi", insec: true},
+		{n: 4, t: 3, v: 2, net: "custom:verifnet:0x10203040:424242:1700000000", insec: true},
 		{n: 4, t: 3, v: 2, net: "sepolia", amounts: []int{16, 16}, insec: true},
 		{n: 5, t: 4, v: 1, net: "goerli", ver: "v1.8.0", amounts: []int{8, 8, 16}, insec: true},
 		{n: 4, t: 2, v: 3, net: "hoodi", comp: true, amounts: []int{32, 100}, insec: true},
